@@ -17,9 +17,11 @@ EXTENDS JV
 
 Positions == {"req", "opt", "nullopt", "nullreq", "defreq", "defopt", "optdefault"}
 
-PosNullable(pos) == pos \in {"nullopt", "nullreq"}
-PosViaDef(pos)   == pos \in {"defreq", "defopt"}
-PosReq(pos)      == pos \in {"req", "nullreq", "defreq"}
+\* "nulldef": a required property that refers to a definition whose own type list allows null (not in Positions: the
+\* families that use it add it themselves)
+PosNullable(pos) == pos \in {"nullopt", "nullreq", "nulldef"}
+PosViaDef(pos)   == pos \in {"defreq", "defopt", "nulldef"}
+PosReq(pos)      == pos \in {"req", "nullreq", "defreq", "nulldef"}
 
 \* leaf: schema record with a "type" field; vals: sequence of documents for x; dflt: a valid default
 PosUnit(prop, pos, leaf, vals, dflt) ==
